@@ -9,8 +9,10 @@ from harness.core import lean, sp
 SPLITS = ["train", "test", "holdout"]
 SUBS = {".": [], "a": [10], "ab": [13], "b": [11], "a/y": [10, 20], "a/yz": [10, 22], "a/z": [10, 21], "b/y/q": [11, 20, 30], "c/y": [12, 20],
         # sub-directories that are *named like a split* (a directory `train` below the split `test` is just a directory)
-        "train": [0], "test": [1], "a/train": [10, 0], "holdout/y": [2, 20]}
-NAME = {10: "a", 11: "b", 12: "c", 13: "ab", 20: "y", 21: "z", 22: "yz", 30: "q"}      # "a"/"ab", "y"/"yz": one name is a string prefix of its sibling's
+        "train": [0], "test": [1], "a/train": [10, 0], "holdout/y": [2, 20],
+        # sibling directories whose names differ only after a dot (shard `part.0`/`part.1`, version `v1.2`/`v1.3`), and a name ending in a dot-suffix that looks like a file's
+        "part.0": [14], "part.1": [15], "a/v1.2": [10, 23], "a/v1.3": [10, 24], "b/x.json": [11, 25]}
+NAME = {10: "a", 11: "b", 12: "c", 13: "ab", 14: "part.0", 15: "part.1", 20: "y", 21: "z", 22: "yz", 23: "v1.2", 24: "v1.3", 25: "x.json", 30: "q"}      # "a"/"ab", "y"/"yz": one name is a string prefix of its sibling's
 CODE = {v: k for k, v in NAME.items()}
 
 
